@@ -4,16 +4,18 @@ use crate::core::Driver;
 pub mod c12;
 pub mod c13;
 pub mod c15;
+pub mod c16;
 pub mod c17;
 pub mod toy;
 
-pub const ALL: &[&str] = &["C12", "C13", "C15", "C17", "TOY"];
+pub const ALL: &[&str] = &["C12", "C13", "C15", "C16", "C17", "TOY"];
 
 pub fn registry(id: &str) -> Box<dyn Driver> {
     match id {
         "C12" => c12::driver(),
         "C13" => c13::driver(),
         "C15" => c15::driver(),
+        "C16" => c16::driver(),
         "C17" => c17::driver(),
         "TOY" => toy::driver(),
         _ => panic!("MACHINERY: unknown property id {id}"),
